@@ -16,6 +16,7 @@ whose legs are structural; completeness of the search is NOT decided.
  Rm memo          : every memoisation construct in the functions behind this property is keyed by everything it reads.
  Rp presence      : optional numeric fields are tested with `is None` / membership, never by truthiness (0 is a value).
  R7 group constraints: the scan of a combination stops early only after a STRICT failure (shared with C11-R6).
+ Rn arg roles     : a variable named like a parameter of the callee is handed to that parameter (no exchanged roles).
 """
 import ast
 
@@ -389,6 +390,15 @@ def r7_group_constraints(ctx):
     r6_group_constraints(ctx)
 
 
+def rn_arg_roles(ctx):
+    """Rn: a variable named like a parameter of the callee is handed to that parameter (no exchanged roles such as
+    f(to_degree, from_degree) for def f(from_degree, to_degree)); calls to resolved package functions, canonical form"""
+    from .common import arg_roles_rule
+    from ..memo import scope_funcs
+    n = arg_roles_rule(ctx, 'Rn.arg-roles', scope_funcs(ctx.repo, 'C12'), 'paths of the two requests would be exchanged')
+    ctx.check('Rn.arg-roles', 'argument / parameter name scan', True, 'C12|arg-roles-scan', '', f'{n} argument(s) named like another parameter judged')
+
+
 from ..memo import rule_for as _memo_rule
 
 RULES_MEMO = ('Rm.memo', _memo_rule('C12', 'candidates computed for another request would be reused'))
@@ -399,4 +409,4 @@ from ..presence import rule_for as _presence_rule
 RULES_PRESENCE = ('Rp.presence', _presence_rule('C12', 'a legal zero would be read as missing'))
 
 RULES = [('R1.acceptance', r1_acceptance), ('R2.shrink-only', r2_shrink), ('R3.must-raise', r3_raise), ('R4.cutoff', r4_cutoff),
-         ('R5.helper', r5_helper), ('R6.groups', r6_groups), RULES_MEMO, RULES_PRESENCE, ('R7.group-constraints', r7_group_constraints)]
+         ('R5.helper', r5_helper), ('R6.groups', r6_groups), RULES_MEMO, RULES_PRESENCE, ('R7.group-constraints', r7_group_constraints), ('Rn.arg-roles', rn_arg_roles)]
